@@ -4,7 +4,7 @@
    specification = C11.NodeSpec (Node 20's documented algorithm), scope
    predicates = C11.Scope.  Outcomes are compared in the property's classes:
    resolved to the same path / same package re-resolution / refused. *)
-From V Require Import Common.Base C11.Str C11.EsbuildResolve C11.NodeSpec C11.SortLemmas C11.Scope C11.ResolveProofs.
+From V Require Import Common.Base C11.Str C11.EsbuildResolve C11.NodeSpec C11.SortLemmas C11.Scope C11.ResolveProofs C11.Walk C11.NodeWalkSpec C11.WalkProofs.
 Local Open Scope string_scope.
 
 (* esmParsePackageName = PACKAGE_RESOLVE steps 2, 4-7, for every specifier *)
@@ -150,3 +150,46 @@ Theorem refuted_imports_target_is_url :
   /\ spec_imports w_url_target (s_ "#fs") = ORefused ENotExported.
 Proof. exact refuted_imports_url_target. Qed.
 Print Assumptions refuted_imports_target_is_url.
+
+(* ================= second layer: the algorithm around the core =================
+   File system = finite map (C11.Walk).  Hypotheses, visible in every statement:
+   [wf_fs] an entry exists only inside an existing directory; [no_ts_rewrite] no
+   TypeScript file that esbuild's ".js" -> ".ts" rewrite could pick up.  Both have
+   decidable sufficient conditions ([wf_fsb], [no_tsb]). *)
+
+(* loadAsFile = LOAD_AS_FILE, loadAsIndex = LOAD_INDEX, loadAsDirectory (with the
+   "main" field) = LOAD_AS_DIRECTORY: every file system, every path *)
+Theorem load_as_file_eq : forall fs, no_ts_rewrite fs ->
+  forall p, load_as_file fs p = LOAD_AS_FILE fs p.
+Proof. exact WalkProofs.load_as_file_eq. Qed.
+Print Assumptions load_as_file_eq.
+
+Theorem load_as_index_eq : forall fs d, load_as_index fs d = LOAD_INDEX fs d.
+Proof. exact WalkProofs.load_as_index_eq. Qed.
+Print Assumptions load_as_index_eq.
+
+Theorem load_as_directory_eq : forall fs, wf_fs fs -> no_ts_rewrite fs ->
+  forall d, load_as_directory fs d = LOAD_AS_DIRECTORY fs d.
+Proof. exact WalkProofs.load_as_directory_eq. Qed.
+Print Assumptions load_as_directory_eq.
+
+(* require(X) for relative and absolute X (steps 2-3 of "require(X) from module at
+   path Y"): esbuild's resolveWithoutSymlinks gives exactly Node's answer.
+   FULL STATEMENT NOT YET PROVED (package_resolve_eq): the same equation for bare
+   and "#" specifiers, i.e. loadNodeModules / loadPackageImports against
+   LOAD_PACKAGE_IMPORTS / LOAD_PACKAGE_SELF / LOAD_NODE_MODULES, composed with
+   exports_resolve_eq_partial; those parts of Walk.v / NodeWalkSpec.v are tied to
+   esbuild and to Node by the correspondence run only. *)
+Theorem require_relative_eq_partial : forall builtin fs, wf_fs fs -> no_ts_rewrite fs ->
+  forall user dir x, is_package_path x = false -> has_trailing_slash x = false ->
+  nres_of (resolve builtin fs KRequire user dir x) = require_resolve builtin fs user dir x.
+Proof. exact require_relative_eq_all. Qed.
+Print Assumptions require_relative_eq_partial.
+
+Theorem wf_fsb_is_sufficient : forall fs, wf_fsb fs = true -> wf_fs fs.
+Proof. exact wf_fsb_sound. Qed.
+Print Assumptions wf_fsb_is_sufficient.
+
+Theorem no_tsb_is_sufficient : forall fs, no_tsb fs = true -> no_ts_rewrite fs.
+Proof. exact no_tsb_sound. Qed.
+Print Assumptions no_tsb_is_sufficient.
